@@ -7,7 +7,7 @@ INFO = {
             "panic, arithmetic-overflow, bounds, division and unwinding checks on the real code; an error *value* is an allowed outcome.",
     "bounds": "AuDecode: data-offset field in {0,4,7,8,9,16,23,24,28,32}, all other header bytes symbolic, 0..4 data bytes, fed in pieces of 3/4/64; "
               "HdlcDeframer: 10 arbitrary bits through work() (thorough tier only; the no-panic claim for the automaton rests on C13's step harnesses, which start from "
-              "arbitrary states with up to 30 collected bits), min_size in {0,1,2}, checksum on/off, bit fixing on/off; Midpointer: bursts of 0..3 floats; "
+              "arbitrary states with up to 30 collected bits), min_size in {0,1,2}, checksum on/off, bit fixing on/off; Midpointer: empty burst only decided (bursts of 1..3 floats are enumerated but CBMC does not finish in 2400 s: float division + sort); "
               "VecToStream: packet lengths 0..cap+1; ZeroCrossing: 6 floats.",
     "outside": "SigMF metadata and archives (serde_json, tar), SymbolSync (float-dependent loop without derivable bound), wpcr::process_one (rustfft), "
                "Il2pDeframer (not built), TcpSource (C14), anything needing more than ~6 floats.",
@@ -35,7 +35,7 @@ def all_harnesses():
                                   f"crate::c15::hdlc(10, {mn}, 2, {str(ck).lower()}, {str(fix).lower()})", unwind=16, unit="HdlcDeframer::work",
                                   shape={"bits": 10, "min_size": mn, "max_size": 2, "checksum": ck, "fix_bits": fix}, core=False, timeout=2400))
     for n in range(0, 4):
-        hs.append(Harness(f"c15_midpointer_{n}", f"crate::c15::midpointer({n})", unwind=8, unit="Midpointer::work", shape={"burst": n}, core=(n <= 1), timeout=2400))
+        hs.append(Harness(f"c15_midpointer_{n}", f"crate::c15::midpointer({n})", unwind=8, unit="Midpointer::work", shape={"burst": n}, core=(n == 0), timeout=2400))
     for cap in (2, 3):
         for l1 in range(0, cap + 2):
             for l2 in (0, 1, cap + 1):
